@@ -380,6 +380,53 @@ var faults = []fault{
 		control: []string{"Flush from non-elected master returns error", "Flush without specifying network instance returns error", "Modify RPC connection"},
 	},
 	{
+		name: "flush-takes-effect-late", what: "answers Flush with OK before the entries are removed: the first Get after the Flush is still answered from the contents before it (every later request sees the Flush)",
+		wrap: func(in *server.Server) spb.GRIBIServer {
+			p := &proxy{inner: in}
+			var mu sync.Mutex
+			var pending []*spb.FlushRequest
+			settle := func() {
+				mu.Lock()
+				todo := pending
+				pending = nil
+				mu.Unlock()
+				for _, req := range todo {
+					in.Flush(context.Background(), req)
+				}
+			}
+			p.onFlush = func(req *spb.FlushRequest) (*spb.FlushRequest, *spb.FlushResponse) {
+				settle()
+				if req.GetNetworkInstance() == nil {
+					return req, nil
+				}
+				if n, ok := req.GetNetworkInstance().(*spb.FlushRequest_Name); ok {
+					if _, known := in.VerifRIB().NetworkInstanceRIB(n.Name); !known {
+						return req, nil
+					}
+				}
+				// the election checks of the real server reject what must be rejected
+				if _, err := in.Flush(context.Background(), &spb.FlushRequest{Election: req.Election, NetworkInstance: &spb.FlushRequest_Name{Name: "no-such-network-instance-for-probe"}}); err != nil && !isInvalidNI(err) {
+					return req, nil
+				}
+				mu.Lock()
+				pending = append(pending, req)
+				mu.Unlock()
+				return nil, &spb.FlushResponse{Result: spb.FlushResponse_OK}
+			}
+			p.onGet = func(rs []*spb.GetResponse) []*spb.GetResponse {
+				settle() // after the contents have been read
+				return rs
+			}
+			p.onReq = func(st *sessState, m *spb.ModifyRequest) (*spb.ModifyRequest, *spb.ModifyResponse) {
+				settle()
+				return m, nil
+			}
+			return p
+		},
+		expect:  []string{"Flush of all entries in default NI by elected master", "Flush from client overriding election is honoured", "Flush to specific network instance is honoured"},
+		control: []string{"Flush from non-elected master returns error", "Flush without specifying network instance returns error", "Modify RPC connection"},
+	},
+	{
 		name: "ignores-flush-of-a-named-instance", what: "answers a Flush that names one network instance with OK without removing anything (a Flush of all instances is honoured)",
 		wrap: func(in *server.Server) spb.GRIBIServer {
 			p := &proxy{inner: in}
